@@ -1,12 +1,12 @@
 """C18 -- every way a connection can end leaves the router clean and the others served."""
-from pyvc.runner import Check, TaskSpec, run_tasks
+from pyvc.runner import Check, TaskSpec, run_tasks, PY_FULL
 from contracts import transport as T
 from checks import common, c04
 
 
 def run(tier, seed):
     chk = Check("C18", tier, seed)
-    specs = [TaskSpec("teardown[%s]" % w, "contracts.transport", "task_c18", (w,)) for w in ("tcp", "tty")]
+    specs = [TaskSpec("teardown[%s]" % w, "contracts.transport", "task_c18", (w,), replay_kind="transport.teardown", python=PY_FULL, scenario=True) for w in ("tcp", "tty")]
     specs += [s for s in c04.router_specs() if s.name.startswith("mutator")]
     chk.add_results(run_tasks(specs))
     for fn in ("ConnectionHandler.__init__", "ConnectionHandler.handler", "ConnectionHandler.wait_for_messages", "ConnectionHandler.message_from_client",
@@ -25,5 +25,8 @@ def run(tier, seed):
         "NOT covered: a write error on the peer surfaces in a separate send task, not in the per-connection coroutine; nothing unregisters the connection on that path until its read side fails "
         "(limitation of the statement's reach, see DESIGN); tasks already queued when the connection closes may still attempt a write to the closed writer",
     ]
+    chk.standin_on_out_of_reach("native teardown scenarios", "transport.teardown", {}, python=PY_FULL, always=True,
+                                bound_text="real tcp and tty handlers on fake streams: fault kinds {EOF, read error, EOF inside a message, junk then EOF, handler exception, cancellation, OSError} x 5 session "
+                                           "prefixes; a second connection must keep receiving device traffic")
     chk.min_obligations = 60
     return chk.finish()
